@@ -216,6 +216,15 @@ def doOp (m : Sim) (tok : String) : Sim × String :=
     let (m1, i) := newSub m true k.toNat! (parseKind kind)
     let m2 := quiesce fuel0 (runSub 100 m1 i)
     (m2, s!"t{k}={resOf m2 i}")
+  | ["t", k, kind, _] =>
+    -- ScheduleWithTimeout with an explicit timeout (0, tiny, negative): to the model the deadline simply passes
+    let (m1, i) := newSub m true k.toNat! (parseKind kind)
+    let m2 := quiesce fuel0 (runSub 100 m1 i)
+    (m2, s!"t{k}={resOf m2 i}")
+  | ["it", k, kind, _] =>
+    let (m1, i) := newSub m true k.toNat! (parseKind kind)
+    let m2 := quiesce fuel0 (runSub 100 m1 i)
+    (m2, s!"it{k}={resOf m2 i}")
   | ["it", k, kind] =>
     -- InvokeWithTimeout = ScheduleWithTimeout of the wrapped callee; its answer is the caller's answer
     let (m1, i) := newSub m true k.toNat! (parseKind kind)
